@@ -265,7 +265,9 @@ func c02Do(c *core.C, idx int, race bool) {
 				thread.SetParallelism(oldPar)
 			}
 			verifhook.EnableTrace(true)
-			o := run.Buf(cmd.dir, env, nil, args...)
+			// no wall-clock deadline inside a verdict: buf's default --timeout of 2 minutes can expire on a loaded
+			// machine under GOMAXPROCS=1 and would show up as a differing exit status
+			o := run.Buf(cmd.dir, env, nil, append(append([]string{}, args...), "--timeout=0")...)
 			evs := verifhook.Events()
 			c.Eval(1)
 			var sb strings.Builder
@@ -289,7 +291,7 @@ func c02Do(c *core.C, idx int, race bool) {
 			}
 			if o.Code != baseline.Code || !bytes.Equal(o.Stdout, baseline.Stdout) || !bytes.Equal(o.Stderr, baseline.Stderr) {
 				c.Violation("output-differs", fmt.Sprintf("case=%d cmd=%s", idx, cmd.name),
-					fmt.Sprintf("`buf %s` under [%s] differs from the baseline run: exit %d vs %d; first difference: %s", strings.Join(args, " "), label, o.Code, baseline.Code, firstDiff(baseline.Stdout, o.Stdout, baseline.Stderr, o.Stderr)), nil)
+					fmt.Sprintf("`buf %s` under [%s] differs from the baseline run: exit %d vs %d; first difference: %s; stderr of this run: %s", strings.Join(args, " "), label, o.Code, baseline.Code, firstDiff(baseline.Stdout, o.Stdout, baseline.Stderr, o.Stderr), clip(o.Stderr)), nil)
 			}
 			c.Count("comparisons", 1)
 		}
